@@ -43,12 +43,50 @@ def make_float_array(inp, msg: str):
     """transform inp to array with dtype=float, throw error with bad input
     inp: test object
     msg: str, error msg
+
+    Only numbers are float compatible entries: int, float, bool and their numpy
+    counterparts. `None` (which numpy would turn into nan), strings and bytes (which
+    numpy would parse) and any other object are bad input.
     """
     try:
-        inp_array = np.array(inp, dtype=float)
+        # the dtype numpy infers tells what the entries are, without a Python level loop
+        arr = inp if isinstance(inp, np.ndarray) else np.array(inp)
+        kind = arr.dtype.kind
+        if kind not in "fiub":
+            # object arrays can still hold numbers only (integers beyond int64,
+            # Fraction, Decimal); str, bytes, complex, datetime, void never do
+            if kind != "O" or not all(
+                isinstance(x, (numbers.Number, np.bool_)) for x in arr.flat
+            ):
+                bad = {
+                    "O": "None or other objects that are not numbers",
+                    "U": "strings",
+                    "S": "bytes",
+                }.get(kind, f"entries of dtype {arr.dtype}")
+                raise TypeError(f"received {bad}.")
+        # always a new array: numpy's own for sequences, a copy for ndarrays
+        if arr is inp:
+            inp_array = np.array(arr, dtype=float)
+        else:
+            inp_array = np.asarray(arr, dtype=float)
     except Exception as err:
         raise MagpylibBadUserInput(msg + f"{err}") from err
     return inp_array
+
+
+def none_rows_to_nan(inp):
+    """rows that consist of `None` only, in a list of vertices, become rows of nan
+    (the field computation skips segments that start or end there); anything else,
+    also a row with some `None` entries, is left to the format check
+    inp: list or tuple
+    """
+    try:
+        arr = np.array(inp)
+        if arr.dtype.kind == "O" and arr.ndim == 2:
+            arr[np.equal(arr, None).all(axis=1)] = np.nan
+    except Exception:  # pylint: disable=broad-exception-caught
+        return inp
+    return arr
 
 
 def check_array_shape(inp: np.ndarray, dims: tuple, shape_m1: int, length=None, msg=""):
@@ -400,7 +438,10 @@ def check_format_input_vector2(
 def check_format_input_vertices(inp):
     """checks vertices input and returns in formatted form
     - vector check with dim = (n,3) but n must be >=2
+    - rows (None, None, None) separate disconnected parts of the line, they become nan rows
     """
+    if isinstance(inp, (list, tuple)):
+        inp = none_rows_to_nan(inp)
     inp = check_format_input_vector(
         inp,
         dims=(2,),
